@@ -161,6 +161,20 @@ Qed.
 
 Definition over (a b : option (option V)) : option (option V) := match a with Some k => Some k | None => b end.
 
+(* keys of r that the merged dict does not mention are untouched *)
+Lemma merge_dget_other k : forall l r R, dget k l = None -> merge r l = Ok R -> dget k R = dget k r.
+Proof.
+  induction l as [|[k2 x2] l IH]; intros r R Hnk H1.
+  - rewrite merge_nil in H1. inversion H1; reflexivity.
+  - cbn [Config.dget] in Hnk. destruct (text_eqb k k2) eqn:E2; [discriminate|]. apply text_eqb_false in E2.
+    rewrite merge_cons in H1.
+    destruct (dget k2 r) as [[v|rk]|].
+    + apply IH in H1; [|exact Hnk]. rewrite H1. apply dget_dset_other. congruence.
+    + destruct x2 as [v|xs]; [discriminate|]. destruct (merge rk xs) as [rk'|e]; [|discriminate]. cbn [bind] in H1.
+      apply IH in H1; [|exact Hnk]. rewrite H1. apply dget_dset_other. congruence.
+    + apply IH in H1; [|exact Hnk]. rewrite H1. apply dget_dset_other. congruence.
+Qed.
+
 (* What merge does, observed at a path: the merged-in dict wins wherever it has anything. *)
 Lemma merge_kind_cfg : forall c, wf c -> forall d, c = Dict d -> forall r R,
   merge r d = Ok R -> forall p, kind_at p R = over (kind_at p d) (kind_at p r).
@@ -176,18 +190,7 @@ Proof.
     destruct (text_eqb k0 k) eqn:E.
     + apply text_eqb_eq in E; subst k0.
       assert (Hl0 : forall r1 R1, merge r1 l = Ok R1 -> dget k R1 = dget k r1).
-      { intros r1 R1 H1. specialize (IHl r1 R1 H1 [k]). unfold Config.kind_at in IHl. cbn [Config.lookup] in IHl.
-        apply dget_none_notin in Hnk. rewrite Hnk in IHl. cbn [option_map over] in IHl.
-        (* kinds equal is not enough: use a direct argument instead *)
-        clear IHl. revert r1 R1 H1. clear -Hnk. induction l as [|[k2 x2] l IH]; intros r1 R1 H1.
-        - rewrite merge_nil in H1. inversion H1; reflexivity.
-        - cbn [Config.dget] in Hnk. destruct (text_eqb k k2) eqn:E2; [discriminate|]. apply text_eqb_false in E2.
-          rewrite merge_cons in H1.
-          destruct (dget k2 r1) as [[v|rk]|].
-          + apply IH in H1; [|exact Hnk]. rewrite H1. apply dget_dset_other. congruence.
-          + destruct x2 as [v|xs]; [discriminate|]. destruct (merge rk xs) as [rk'|e]; [|discriminate]. cbn [bind] in H1.
-            apply IH in H1; [|exact Hnk]. rewrite H1. apply dget_dset_other. congruence.
-          + apply IH in H1; [|exact Hnk]. rewrite H1. apply dget_dset_other. congruence. }
+      { intros r1 R1 H1. apply (merge_dget_other k l r1 R1); [apply dget_none_notin; exact Hnk | exact H1]. }
       destruct (dget k r) as [[v|rk]|] eqn:Er.
       * apply Hl0 in HR. rewrite HR, dget_dset_same.
         destruct p' as [|k1 p'']; [reflexivity|]. cbn [lookup_in].
@@ -217,20 +220,6 @@ Qed.
 
 Lemma merge_kind r d R p : wfd d -> merge r d = Ok R -> kind_at p R = over (kind_at p d) (kind_at p r).
 Proof. intros Hw H. exact (merge_kind_cfg (Dict d) Hw d eq_refl r R H p). Qed.
-
-(* keys of r that the merged dict does not mention are untouched *)
-Lemma merge_dget_other k : forall l r R, dget k l = None -> merge r l = Ok R -> dget k R = dget k r.
-Proof.
-  induction l as [|[k2 x2] l IH]; intros r R Hnk H1.
-  - rewrite merge_nil in H1. inversion H1; reflexivity.
-  - cbn [Config.dget] in Hnk. destruct (text_eqb k k2) eqn:E2; [discriminate|]. apply text_eqb_false in E2.
-    rewrite merge_cons in H1.
-    destruct (dget k2 r) as [[v|rk]|].
-    + apply IH in H1; [|exact Hnk]. rewrite H1. apply dget_dset_other. congruence.
-    + destruct x2 as [v|xs]; [discriminate|]. destruct (merge rk xs) as [rk'|e]; [|discriminate]. cbn [bind] in H1.
-      apply IH in H1; [|exact Hnk]. rewrite H1. apply dget_dset_other. congruence.
-    + apply IH in H1; [|exact Hnk]. rewrite H1. apply dget_dset_other. congruence.
-Qed.
 
 (* the only exception nested_combine raises is its ValueError *)
 Lemma merge_err_cfg : forall c d, c = Dict d -> forall r e, merge r d = Err e -> e = EValue.
